@@ -1086,7 +1086,11 @@ fn hints_for(kind: &str, body: &[u8]) -> String {
         ),
         _ => (false, false),
     };
-    let s = catch(|| beve::read_typed_slice::<f64>(body).is_ok()).unwrap_or(false);
+    // the crate's own bulk decoder (it accepts the generic empty array `05 00` besides beve's typed arrays)
+    let s = catch(|| {
+        repe::Message::builder().body_bytes(body.to_vec()).body_format(repe::BodyFormat::Beve).build().decode_typed_slice::<f64>().is_ok()
+    })
+    .unwrap_or(false);
     let r = if body.first() == Some(&0x5C) { catch(|| beve::read_aligned_typed_slice::<f64>(body).is_ok()).unwrap_or(false) } else { s };
     [b(j), b(bv), b(s), b(r)].iter().collect()
 }
